@@ -88,6 +88,16 @@ class MapExceptionsCtx(CtxHandler):
         return False
 
 
+class SuppressCtx(CtxHandler):
+    """contextlib.suppress(*classes): python semantics, nothing assumed"""
+
+    def __init__(self, classes):
+        self.classes = classes
+
+    def exit(self, it, st, exc):
+        return exc is not None and any(it.eng.classes.issub(exc.cls, k) for k in self.classes)
+
+
 class TraceCtx(CtxHandler):
     """`async with Trace(...)`: the user's trace callback may run at entry and exit.  In the async
     tree that is a suspension point (the callback is awaited) whenever a trace extension is set;
@@ -150,6 +160,12 @@ def register(reg):
                 raise Unsupported("map_exceptions mapping entries must be classes")
             mapping.append((k[1], v.name))
         return VCtx(MapExceptionsCtx(mapping))
+
+    @reg.intrinsic("contextlib.suppress")
+    def suppress(it, st, args, kwargs, node):
+        if not all(isinstance(a, VClass) for a in args):
+            raise Unsupported(f"{it.site(node)}: contextlib.suppress with non-class arguments")
+        return VCtx(SuppressCtx([a.name for a in args]))
 
     @reg.intrinsic(TRACE)
     def mk_trace(it, st, args, kwargs, node):
